@@ -19,6 +19,11 @@ transmissibilities do not see the gain, the mean reference block is homogeneous)
 `FDD_mpe` on the merged array is identical.  Per-setup gains `c_i` do NOT leave the merged array unchanged up
 to a factor in general (the mean reference block becomes `(1/n)·Σ c_i²·G_ref⁽ⁱ⁾`, `C04_gain`); the property
 speaks of one common constant.
+
+**C. `pLSCF_MS`**: the normal equations read the merged array on the array only (`OrderCert.congr`), so
+`C08_gain_plscf` applies with `c = g²` (`C08_gain_plscf_range`, `C08_ms_gain_plscf_ms`): same state matrix,
+identical `ac2mp_poly` column.  **D. `EFDD_MS`**: the `"EFDD"` bell is built from the stored `SD_svalsvec` values
+only (`C08_ms_gain_efdd_ms`).
 -/
 namespace PV.C08
 open PV PV.Mat PV.Cov PV.Multi PV.MsFreeVib Matrix Finset
@@ -638,6 +643,43 @@ theorem C08_ms_gain_plscf_ms (tb : C04C13.Tables K) {inv : Mat (CxS K) → Mat (
   exact ⟨C', hC', hcol⟩
 
 end plscf_ms
+
+/-! ## D. `EFDD_MS` (method `"EFDD"`, the only one the multi-setup class offers) -/
+section efdd_ms
+open PV.Fdd PV.Efdd PV.C04C13
+variable {K : Type} [Field K] [LinearOrder K] [IsStrictOrderedRing K]
+
+/-- **C08_ms_gain_efdd_ms — `EFDD_MS` under a common gain, to the normalised correlation and what
+    `EFDD_mpe` derives from it.**  The `"EFDD"` bell is built from the stored square roots of the singular values
+    and the stored vectors only (it does not read the merged array again); with the stored square roots of
+    the scaled run `r·Sval` (`r² = g²`: `C08_ms_gain_fdd_ms`) and the same stored vectors, the bell is `g²` times
+    the bell on the same band, the normalised auto-correlation is the same sequence and `postFft` (crossings,
+    extrema, `Td`, `fd`, decrement ratios) is identical. -/
+theorem C08_ms_gain_efdd_ms (tb : C04C13.Tables K) (inv : Mat (CxS K) → Mat (CxS K)) (fs : K) (nxseg : Nat)
+    (pov : K) (method : SdMethod) (nset : Nat) (Y : Nat → Setup K) (g : K) (hg : g ≠ 0) (r : K)
+    (hrg : r * r = g * g) (nch cm nf : Nat) (dt : K)
+    (Sval : Nat → Nat → Nat → K) (Svec : Nat → Nat → Nat → Fdd.Cx K) (phi : Nat → Fdd.Cx K)
+    (sel DF MAClim : K) (twI : Nat → Fdd.Cx K) (rs : K) (sppk npmax : Nat) :
+    postFft nf (normCorr (5 * nf) (ifftRe nf twI rs (sdofBell .EFDD nch cm nf dt
+        (fun i j l => toCx ((sdPreGER (sdEst tb) inv fs nxseg pov method nset (scaleAll g Y)).S.e i j l))
+        (fun i j l => r * Sval i j l) Svec phi sel DF MAClim))) dt sppk npmax
+      = postFft nf (normCorr (5 * nf) (ifftRe nf twI rs (sdofBell .EFDD nch cm nf dt
+        (fun i j l => toCx ((sdPreGER (sdEst tb) inv fs nxseg pov method nset Y).S.e i j l))
+        Sval Svec phi sel DF MAClim))) dt sppk npmax := by
+  have e : sdofBell .EFDD nch cm nf dt
+      (fun i j l => toCx ((sdPreGER (sdEst tb) inv fs nxseg pov method nset (scaleAll g Y)).S.e i j l))
+      (fun i j l => r * Sval i j l) Svec phi sel DF MAClim
+      = sdofBell .EFDD nch cm nf dt
+        (fun i j l => Fdd.Cx.smul (g * g)
+          (toCx ((sdPreGER (sdEst tb) inv fs nxseg pov method nset Y).S.e i j l)))
+        (fun i j l => r * Sval i j l) Svec phi sel DF MAClim := rfl
+  rw [e]
+  exact (PV.C07Bell.C07_scale_ifft .EFDD (Or.inr rfl) nch cm nf dt _ Sval Svec phi sel DF MAClim (g * g) r
+    (mul_self_pos.mpr hg) hrg twI rs sppk npmax).2
+
+example := C08_ms_gain_efdd_ms exTb C04.exInv 1 4 (1/2) .per 2 C04C13.exYs (-3) (by norm_num) 3 (by norm_num)
+
+end efdd_ms
 
 /-! ### Non-vacuity of part C -/
 section ex_plscf_ms
